@@ -191,9 +191,12 @@ func Run(c *engine.Ctx) {
 				// two-component client principal whose keytab also holds a newer sibling/<instance> entry
 				variants := []string{""}
 				if et == 18 || et == 23 {
-					variants = []string{"", "udp-too-big", "user-instance"}
+					variants = []string{"", "udp-too-big", "user-instance", "canonicalize", "forwardable-proxiable", "advertised-salt", "canonicalize+advertised-salt"}
 				}
 				for _, variant := range variants {
+					if strings.Contains(variant, "advertised-salt") && cred != "password" {
+						continue
+					}
 					perts := perturbations(et, bits)
 					if variant != "" {
 						perts = perturbations(et, []int{0, -1})
@@ -213,6 +216,16 @@ func Run(c *engine.Ctx) {
 						o.UDPTooBig = variant == "udp-too-big"
 						if variant == "user-instance" {
 							o.UserInstance = "client.test.gokrb5"
+						}
+						// options that change the request (kdc-options) must not change what is demanded of the reply; a KDC that
+						// always advertises the salt makes the reply key independent of the reply's crealm/cname
+						o.Canonicalize = strings.Contains(variant, "canonicalize")
+						if variant == "forwardable-proxiable" {
+							o.Forwardable, o.Proxiable = true, true
+						}
+						if strings.Contains(variant, "advertised-salt") {
+							salt := "an explicit salt, advertised in every reply"
+							o.Salt = &salt
 						}
 						if exch == "AS+PA" {
 							o.PreAuth = "required"
